@@ -107,13 +107,45 @@ def mir_dump(repo, kind='lib'):
         raise ValueError(kind)
     cmd += ['--', '-Zunpretty=mir', '-C', 'debug-assertions=off', '-C', 'overflow-checks=on']
     t0 = time.time()
-    r = subprocess.run(cmd, cwd=repo, env=_env('target-mir'), stdout=subprocess.PIPE, stderr=subprocess.PIPE, text=True)
+    with target_lock('target-mir'):
+        _touch_sources(repo)
+        r = subprocess.run(cmd, cwd=repo, env=_env('target-mir'), stdout=subprocess.PIPE, stderr=subprocess.PIPE, text=True)
     if r.returncode != 0 or not r.stdout.strip():
         sys.stderr.write(r.stderr[-4000:])
         raise RuntimeError("MIR dump failed (%s)" % kind)
     open(out, 'w').write(r.stdout)
     prune_cache('target-mir')
     return r.stdout
+
+
+def _touch_sources(repo):
+    now = time.time()
+    for dp, dn, fn in os.walk(os.path.join(repo, 'src')):
+        for f in fn:
+            try:
+                os.utime(os.path.join(dp, f), (now, now))
+            except OSError:
+                pass
+    for f in ('Cargo.toml', 'build.rs'):
+        p = os.path.join(repo, f)
+        if os.path.exists(p):
+            os.utime(p, (now, now))
+
+
+class target_lock:
+    """exclusive use of one shared cargo target directory"""
+    def __init__(self, name):
+        os.makedirs(CACHE, exist_ok=True)
+        self.path = os.path.join(CACHE, name + '.lock')
+
+    def __enter__(self):
+        import fcntl
+        self.f = open(self.path, 'w')
+        fcntl.flock(self.f, fcntl.LOCK_EX)
+        return self
+
+    def __exit__(self, *a):
+        self.f.close()
 
 
 _native = {}
@@ -147,6 +179,10 @@ def _build_native(repo, release=False):
     import fcntl
     with open(os.path.join(CACHE, 'target-replay.lock'), 'w') as lk:
         fcntl.flock(lk, fcntl.LOCK_EX)
+        # cargo decides freshness by comparing source mtimes with the artefacts in the (shared) target directory: another run may
+        # have built a DIFFERENT tree after this run's copy was made.  Touching the sources while holding the lock makes them newer
+        # than every artefact any earlier holder of the lock can have produced.
+        _touch_sources(repo)
         for where in (rp, repo):
             r = subprocess.run(cmd, cwd=where, env=_env('target-replay'), stdout=subprocess.PIPE, stderr=subprocess.PIPE, text=True)
             if r.returncode != 0:
